@@ -131,7 +131,7 @@ func run(c *props.Ctx) {
 	}
 
 	// --- value node and parameters
-	checkVersionedLeaves(c, repoRep{c})
+	checkVersionedLeaves(c, repoRep{c}, repoLeaves)
 
 	// --- type level
 	checkDataStructs(c, eng)
@@ -157,6 +157,8 @@ func run(c *props.Ctx) {
 	c.R.Floor("NODE-9", 60)
 	c.R.Floor("ORD-1", 1)
 	c.R.Floor("REFL-1", 1)
+	c.R.Floor("NODE-10", 3)
+	c.R.Floor("NODE-11", 3)
 	if c.Tier == "thorough" {
 		c.R.Floor("NODE-8", 40)
 	}
